@@ -81,7 +81,35 @@ fn pair(v: &Value) -> (u64, u64) {
     (v[0].as_u64().unwrap(), v[1].as_u64().unwrap())
 }
 
+/// the bundled requirement type: semver::VersionReq on Inventory<semver::Version, ..>.  Which artifacts a requirement
+/// admits is taken from `VersionReq::matches` directly; versions are reported as ranks in their sorted order.
+fn run_resolve_semver(case: &Value) -> Value {
+    let mut inv: Inventory<semver::Version, (), u64> = Inventory::new();
+    for a in case["arts"].as_array().unwrap() {
+        inv.push(Artifact { version: semver::Version::parse(a["sv"].as_str().unwrap()).unwrap(), os: os_of(&a["os"]), arch: arch_of(&a["arch"]),
+                            url: String::new(), checksum: "any:00".parse::<Checksum<()>>().unwrap(), metadata: 0 });
+    }
+    let mut sorted: Vec<semver::Version> = inv.artifacts.iter().map(|a| a.version.clone()).collect();
+    sorted.sort();
+    sorted.dedup();
+    let ranks: Vec<usize> = inv.artifacts.iter().map(|a| sorted.iter().position(|v| *v == a.version).unwrap()).collect();
+    let mut res = vec![];
+    for q in case["queries"].as_array().unwrap() {
+        let req = semver::VersionReq::parse(q["req"].as_str().unwrap()).unwrap();
+        let t = inv.resolve(os_of(&q["os"]), arch_of(&q["arch"]), &req);
+        let p = inv.partial_resolve(os_of(&q["os"]), arch_of(&q["arch"]), &req);
+        let ti = t.map(|r| inv.artifacts.iter().position(|a| std::ptr::eq(a, r)).unwrap());
+        let pi = p.map(|r| inv.artifacts.iter().position(|a| std::ptr::eq(a, r)).unwrap());
+        let admitted: Vec<bool> = inv.artifacts.iter().map(|a| req.matches(&a.version)).collect();
+        res.push(json!({"partial": pi, "total": ti, "pnan": pi, "admitted": admitted}));
+    }
+    json!({"id": case["id"], "results": res, "ranks": ranks})
+}
+
 fn run_resolve(case: &Value) -> Value {
+    if case["semver"] == true {
+        return run_resolve_semver(case);
+    }
     let mut pinv: Inventory<PV, (), u64> = Inventory::new();
     let mut tinv: Inventory<TV, (), u64> = Inventory::new();
     let mut ninv: Inventory<NV, (), u64> = Inventory::new();
